@@ -14,6 +14,8 @@ func invariant(args ...any)                {}
 func decreases(args ...any)                {}
 func modifies(args ...any)                 {}
 func touches(args ...any)                  {}
+func touchesmap(args ...any)               {}
+func quietunless(args ...any)              {}
 func assumes(args ...any)                  {}
 func asserts(args ...any)                  {}
 func flag(name string)                     {}
